@@ -151,7 +151,8 @@ def c15_unit(args):
             if kind == "parse":
                 i = op[1]
                 objs = parse_bundle(specs[i]["yaml"], specs[i]["mode"])
-                bundles.append({"spec": i, "objs": objs, "snap": freeze(objs), "tainted": False})
+                # a bundle of a spec that does not compile even in a pristine fork is tainted from the start
+                bundles.append({"spec": i, "objs": objs, "snap": freeze(objs), "tainted": "error" in T.get(i, {})})
             elif kind == "compile":        # on shared parsed objects
                 if not bundles:
                     continue
@@ -197,6 +198,11 @@ def c15_unit(args):
                 else:
                     b = None
                     objs = parse_bundle(specs[i]["yaml"], specs[i]["mode"])
+                if "error" in T.get(i, {}):
+                    ev["skipped"] = "spec does not compile"
+                    check_all(oi)
+                    out["events"].append(ev)
+                    continue
                 total = specs[i].get("lines")
                 if not total:
                     # count on fresh objects first (an ordinary, completed compilation)
